@@ -152,6 +152,7 @@ def run_rust_case(item):
                  "verif_in64": lambda m, i: ins64.get(i, 0), "verif_out64": lambda m, i, v: out64.__setitem__(i, v),
                  "verif_load": lambda m, a: 0, "verif_store": lambda m, a, v: None}
         m = interp.Machine(img, hooks)
+        m.array_mode = True
         m.run(img.mod.functions["harness_timer_reset" if case == "reset" else "harness_timer"], [])
         py = None
         if case in ("enabled", "zero-period", "disabled"):
